@@ -19,10 +19,22 @@ def strip(n):
     return n
 
 
+def _base_type(t):
+    t = (t or "").replace("const ", "").replace(" const", "").replace("&", "").strip()
+    return t
+
+
 def strip_all(n):
-    """strip() plus explicit casts that only convert (static_cast/C-style/functional)."""
+    """strip() plus explicit casts that only convert (static_cast/C-style/functional)
+    and copy/move constructions of the same class type (pass-by-value copies)."""
     while True:
         n = strip(n)
+        if n is not None and n.get("k") == "CXXConstructExpr" and len(n.get("c", [])) == 1:
+            inner = strip(n["c"][0])
+            if inner is not None and _base_type(n.get("ct") or n.get("t")) and \
+                    _base_type(n.get("ct") or n.get("t")) == _base_type(inner.get("ct") or inner.get("t")):
+                n = inner
+                continue
         if n is not None and n.get("k") in ("CStyleCastExpr", "CXXStaticCastExpr", "CXXFunctionalCastExpr") \
                 and n.get("c") and n.get("ck") in ("NoOp", "IntegralCast", "LValueToRValue", "IntegralToBoolean"):
             n = n["c"][0]
